@@ -11,6 +11,7 @@ import (
 	"math/rand"
 	"os"
 	"path/filepath"
+	"sort"
 	"strings"
 	"sync"
 )
@@ -59,6 +60,7 @@ func (c *genCfg) inputs(emit func(string)) {
 		}
 		truncations(sqlTemplates, sqlDecoys, emit)
 		sqlLengthBoundaries(emit)
+		tableDrivenSQL(emit)
 		for i, k := 0, n(120000, 2500000); i < k; i++ {
 			emit(fragGen(rng, sqlFrag, sqlAlpha, 9))
 		}
@@ -84,6 +86,7 @@ func (c *genCfg) inputs(emit func(string)) {
 			}
 		}
 		truncations(htmlTemplates, htmlDecoys, emit)
+		tableDrivenHTML(emit)
 		for i, k := 0, n(150000, 3000000); i < k; i++ {
 			emit(fragGen(rng, htmlFrag, htmlAlpha, 8))
 		}
@@ -427,4 +430,55 @@ func cmdGen(args []string) {
 	b, _ := json.Marshal(sum)
 	os.WriteFile(filepath.Join(c.out, "summary.json"), b, 0o644)
 	fmt.Println(string(b))
+}
+
+// tableDrivenSQL: every keyword / phrase of the shipped table (not the fingerprints) in a few
+// syntactic positions, lower case (the case oracles re-assign the case).
+func tableDrivenSQL(emit func(string)) {
+	t := liTables()
+	var keys []string
+	for k, v := range t.Keywords {
+		if v != 'F' {
+			keys = append(keys, k)
+		}
+	}
+	sort.Strings(keys)
+	for _, k := range keys {
+		w := strings.ToLower(k)
+		emit(w)
+		emit("1 " + w + " 1")
+		emit(w + "(1)")
+		emit("1;" + w + " 1")
+		emit("select " + w + " from t")
+		emit("1 " + w + " select 1 --")
+		emit("x' " + w + " 'a'='a")
+	}
+}
+
+// tableDrivenHTML: every black tag, event and attribute of the shipped lists in a few syntactic
+// positions, lower case.
+func tableDrivenHTML(emit func(string)) {
+	t := liTables()
+	for _, tg := range t.BlackTags {
+		w := strings.ToLower(tg)
+		emit("<" + w + ">")
+		emit("<" + w + " x=y>")
+		emit("x'><" + w + "/")
+		emit("</" + w + " x>")
+	}
+	for _, e := range t.BlackEvents {
+		w := "on" + strings.ToLower(e.Name)
+		emit("<x " + w + "=y>")
+		emit("x " + w + "=y")
+		emit("x' " + w + "='y")
+		emit("<x/" + w + " = y>")
+	}
+	for _, a := range t.Blacks {
+		w := strings.ToLower(a.Name)
+		emit("<a " + w + "=javascript:x>")
+		emit("<a " + w + "='vbscript:x'>")
+		emit("x\" " + w + "=\"data:x")
+		emit("<a " + w + "=x>")
+		emit("<a " + w + "=onclick>")
+	}
 }
